@@ -119,11 +119,11 @@ pub fn plan(quick: bool) -> Vec<Part> {
         v.push(mk("R1/full", 4, Space::singles(4, 8), 2));
         v.push(mk("R2/full", 4, Space::pairs(4, 4), 2));
         v.push(mk("R1+RT/star", 5, Space::singles(5, 10).plus(Space::thresholds(5, 9)), 1));
-        v.push(mk("R2/mini", 5, Space::pairs(5, 6), 0));
+        v.push(mk("R2/mini", 5, Space { segs: vec![Seg::Pair(5, 5), Seg::Pair(6, 5)] }, 0));
         v.push(mk("R1/full", 5, Space::singles(5, 7), 2));
         v.push(mk("R1/star", 6, Space::singles(6, 10), 1));
         v.push(mk("R1/full", 6, Space::singles(6, 8), 2));
-        v.push(mk("R3/mini", 4, Space::triples(4, 5), 0));
+        v.push(mk("R3/mini", 4, Space::triples(4, 4), 0));
     }
     for k in BIG_K {
         v.push(mk(if quick { "catalogue/star" } else { "catalogue/full" }, k, Space { segs: vec![catalogue(k)] }, if quick { 1 } else { 2 }));
